@@ -766,8 +766,16 @@ def r4_labels(ctx, mi) -> None:
 def r5_split(ctx, mi) -> None:
   ci = mi.classes.get('TrialToArrayConverter')
   fi = ci.methods['to_parameters']
-  t = unparse(fi.node, 0)
-  ok = 'DictOf2DArrays(self._impl.to_features([]))' in t and '.dict_like(arr)' in t and 'self._impl.to_parameters(' in t
+  from vzstatic import pathcond
+  g = cfgmod.CFG(fi.node)
+  par = [p_ for p_ in fi.params if p_ != 'self'][0]
+  rets = [n for n in g.nodes if n.kind == 'stmt' and isinstance(n.ast, ast.Return) and n.ast.value is not None]
+  ok = bool(rets)
+  for r in rets:
+    pths = pathcond.paths(g, [g.entry], r)
+    for pth in pths:
+      t = unparse(pathcond.substitute_on_path(pth, r.ast.value), 0)
+      ok = ok and t == f'self._impl.to_parameters(DictOf2DArrays(self._impl.to_features([])).dict_like({par}))'
   ctx.check(ok, 'R5', 'TrialToArrayConverter.to_parameters', fi.node,
             'columns split by DictOf2DArrays(self._impl.to_features([])).dict_like(arr)',
             'the array is not split with the layout to_features() produces', construct='split', func=fi.qualname)
